@@ -56,6 +56,9 @@ void RestoreLog(SavedLog&& s);
 enum class FaultKind { NONE, ENOSPC_WRITE, EIO_WRITE, EIO_SYNC, SHORT_WRITE, ENOSPC_FALLOC };
 void SetFault(FaultKind kind, uint64_t after_ops);
 bool FaultFired();
+/** write faults pass over write()s that stdio issues from inside fwrite() (not fflush/fclose) to paths containing path_substr
+ *  (cleared by Arm()) */
+void SetFwriteFaultExempt(const std::string& path_substr);
 void ClearFault();
 
 struct CrashSpec {
